@@ -23,8 +23,8 @@ func init() {
 			"all single deviations and seeded pairs/triples, crossed with signed/unsigned Response, EntityID set/unset, audience validator {none, returns nil, returns error}, received-at URL equal/unequal to the ACS URL, and XML/POST/artifact entry points. " +
 			"Oracle computed from the chosen variants (accept-required / reject-required / no verdict for mixed audiences); a sole non-Success status must surface as ErrBadStatus. Non-trivial = signature verified and the response reached field validation; distinct by variant vector x configuration.",
 		Assumptions: []string{"audience lists mixing right and wrong values carry no verdict", "for the artifact entry point a missing Destination on a signed inner Response carries no verdict (not delivered through the browser)"},
-		FloorQuick:  3000,
-		FloorThor:   50000,
+		FloorQuick:  1700,
+		FloorThor:   6000,
 		Run:         runC03,
 		LevelText:   "All single near-miss deviations of every addressing field and sampled combinations, on validly signed messages under every relevant SP configuration, judged by an oracle computed from the chosen values (string equality, independent of the library's comparison code). Held-on-observed.",
 		LevelNote:   "Trusts goxmldsig for signing, and that the variant generator's notion of 'wrong' (byte-unequal to the configured value) matches the statement's equality.",
